@@ -4,6 +4,7 @@ use crate::harness::{Program, Tier};
 use std::collections::BTreeMap;
 
 pub mod c04;
+pub mod c05;
 
 #[derive(Clone, Copy, Debug, PartialEq, Eq)]
 pub enum Mode {
@@ -36,7 +37,7 @@ pub struct PropDef {
 }
 
 pub fn all() -> Vec<PropDef> {
-    vec![c04::def()]
+    vec![c04::def(), c05::def()]
 }
 
 pub fn get(id: &str) -> Option<PropDef> {
